@@ -423,6 +423,10 @@ func Check(verifRoot, self, prop, tier string, seed uint64) (*Result, error) {
 	}
 	sorted := spec.Corpus()
 	sorted.Config.Sort = true // field order of the generated code follows names instead of declarations
+	// the second variant also builds its time/duration attribute types through constructors
+	tt, dt := *spec.SimTimeType, *spec.SimDurationType
+	tt.TypeConstructor, dt.TypeConstructor = "UseSimTime()", "UseSimDuration()"
+	sorted.Config.TimeType, sorted.Config.DurationType = &tt, &dt
 	runs := []*progRun{{name: "corpus", prog: spec.Corpus()}, {name: "corpus-sorted", prog: sorted}}
 	for i := 0; i < nRandom; i++ {
 		ps := seed*1000003 + uint64(i)*7919 + 17
